@@ -29,6 +29,8 @@ class C03(object):
             rest = [i for i in range(n) if i not in crvs]
             if rng.random() < 0.4:
                 rvs = None
+            elif rng.random() < 0.08:
+                rvs = []            # explicitly no variable: each conditional is the trivial distribution
             else:
                 rvs = sorted(rng.sample(rest, rng.randint(1, len(rest))))
             # the caller may list the variables in any order; condition_on keeps variable order
